@@ -544,6 +544,14 @@ def __sym_in__(a, b):
                 alts.append(ch_in(a.cs[0], _single_ranges(tuple(singles))))
             return mkbool(zor(alts))
         raise Unsupported("symbolic str in %s" % type(b).__name__)
+    if _isinstance(a, SymInt) and _isinstance(b, range):
+        if len(b) == 0:
+            return False
+        lo, hi, st = (b[0], b[-1], b.step) if b.step > 0 else (b[-1], b[0], -b.step)
+        conds = [a.z >= lo, a.z <= hi]
+        if st != 1:
+            conds.append((a.z - lo) % st == 0)
+        return mkbool(z3.And(conds))
     if _isinstance(a, (SymInt, SymFloat)):
         if _isinstance(b, (tuple, list, set, frozenset)):
             return mkbool(zor([B(a == x) for x in b]))
